@@ -229,7 +229,7 @@ func evalC03(c *Ctx, cs *Case) {
 	}
 	// reference results from Markdown
 	type obs struct {
-		text      [5]string
+		text      [6]string
 		enc       [3]string
 		encErr    [3]bool
 		rows      []model.Row
@@ -237,7 +237,7 @@ func evalC03(c *Ctx, cs *Case) {
 		dry       string
 		errTextNE bool
 	}
-	branches := []int{0, 3, 4, 6, 7}
+	branches := []int{0, 3, 4, 6, 7, 8}
 	encOpts := []gtree.Option{gtree.WithEncodeJSON(), gtree.WithEncodeYAML(), gtree.WithEncodeTOML()}
 	encNames := []string{"json", "yaml", "toml"}
 	var md obs
